@@ -31,6 +31,7 @@ type dyn struct {
 	s      *common.Scenario
 	e      *world.Env
 	podCtl *provisioning.PodController
+	w      *watches
 
 	limits   map[string]v1.Limits // pool -> limits (fixed for the whole history)
 	passOf   map[string]int       // NodeClaim name -> provisioning pass that created it
@@ -208,18 +209,17 @@ func (d *dyn) noteReached() {
 }
 
 func (d *dyn) deliver(full bool) {
-	e := d.e
 	if full {
 		for r := range d.backlog {
 			delete(d.backlog, r)
 		}
-		if err := e.SyncState(); err != nil {
+		if err := d.w.syncAll(); err != nil {
 			d.r.Inc("dyn_sync_errors")
 		}
 		d.step("informers: full sync")
 		return
 	}
-	for _, r := range e.PendingRequests() {
+	for _, r := range d.w.pending() {
 		d.backlog[r] = true
 	}
 	var reqs []world.Request
@@ -233,7 +233,7 @@ func (d *dyn) deliver(full bool) {
 		if d.rng.Intn(4) == 0 {
 			continue // this watch event is still in flight
 		}
-		_ = e.Deliver(r)
+		_ = d.w.deliver(r)
 		delete(d.backlog, r)
 		n++
 	}
@@ -571,6 +571,7 @@ func runDynamic(r *mon.Report, tier string, idx, ord int, rng *rand.Rand) {
 	}
 	d.caseDesc = map[string]any{"case": idx, "kind": "dynamic", "ordinal": ord, "options": optDesc, "limits": limDesc, "pools": s.Desc["pools"], "catalogs": s.Desc["catalogs"]}
 	d.podCtl = provisioning.NewPodController(e.API.Client, e.Prov, e.Cluster)
+	d.w = newWatches(e)
 	e.Provider.OnCreate = func(inst *world.Instance) { d.check("provider Create for " + inst.ClaimName) }
 	r.Eval()
 	r.Inc("dyn_cases")
